@@ -390,6 +390,14 @@ class VModule(V):
         self.mod = mod
 
 
+class VPartial(V):
+    """functools.partial(func, *args, **kwargs)"""
+    kind = "partial"
+
+    def __init__(self, func, args, kwargs):
+        self.func, self.args, self.kwargs = func, list(args), dict(kwargs)
+
+
 class VBound(V):
     """Method of a non-repo receiver: tensor / list / dict / str / external object."""
 
